@@ -641,7 +641,7 @@ func C06() *engine.Check {
 	return &engine.Check{
 		Property: "C06",
 		Level:    "model_checking",
-		Subs:     []*engine.Sub{c06ByteSub(), c06RewriteSub(), c06ConcSub()},
+		Subs:     []*engine.Sub{c06ByteSub(), c06RewriteSub(), c06ConcSub(), concRaceSub("C06")},
 		Assumptions: []string{
 			"forgeries that need cryptanalysis are outside any enumeration; only key-less manipulations are enumerated",
 			"independent re-verification uses libp2p PubKey.Verify over the harness' own canonical DAG-CBOR encoding of the decoded {h, payload} map, and the varsig header observed on a really sealed token of the same key type",
